@@ -16,18 +16,18 @@ Theorem C29_fuse_time_antitone : forall i_start i_stop (c : Q -> Q),
 Proof. exact fuse_antitone. Qed.
 Print Assumptions C29_fuse_time_antitone.
 
-(* G: the current is a number.  The fuse melts exactly when the current (in A) reaches its start value *)
-Theorem C29_fuse_trip_iff_partial : forall i_start i_stop cv i,
-  tripped (fuse i_start i_stop cv (Some i)) = true <-> i_start <= i * 1000.
-Proof. exact fuse_trip_iff. Qed.
-Print Assumptions C29_fuse_trip_iff_partial.
+(* the fuse melts exactly when there is a current (not NaN) and it reaches the start value (in A) *)
+Theorem C29_fuse_trip_iff : forall i_start i_stop cv (i : F),
+  tripped (fuse i_start i_stop cv i) = true <-> exists x, i = Some x /\ i_start <= x * 1000.
+Proof. exact fuse_trip_iff_full. Qed.
+Print Assumptions C29_fuse_trip_iff.
 
-(* refuted without the guard: a NaN current (no result row) melts the fuse with time 0 *)
-Theorem C29_fuse_trip_iff_refuted :
-  exists i_start i_stop cv (i : F), tripped (fuse i_start i_stop cv i) = true /\
+(* before "fix: a fuse does not melt on a NaN switch current": a NaN current melted the fuse with time 0 (regression witness) *)
+Theorem C29_fuse_trip_iff_old_refuted :
+  exists i_start i_stop cv (i : F), tripped (fuse_old i_start i_stop cv i) = true /\
     ~ (exists x, i = Some x /\ i_start <= x * 1000).
-Proof. exact fuse_trip_iff_refuted. Qed.
-Print Assumptions C29_fuse_trip_iff_refuted.
+Proof. exact fuse_trip_iff_old_refuted. Qed.
+Print Assumptions C29_fuse_trip_iff_old_refuted.
 
 (* DTOC, consistent grading (t>> <= t>, or the I>> stage not above the I> stage): trip time non-increasing in the current *)
 Theorem C29_dtoc_antitone : forall s i1 i2,
